@@ -7,9 +7,9 @@ precondition (never a < b and b < a), which the comparator does not meet for val
 `sort_ov0::requires@std:never_both_less` failed on the unchanged tree and a 1000-element mixed list panicked on the real code (F21).
 `sort` is now a local stable merge sort.  Under contract: `is_less` (ord of the LEFT argument against the RIGHT one, failures read as
 less), `merge_sort` (no panic: every index in range; the length is preserved; an element of the right half is taken first only when
-it is less than the current element of the left half -- direction and stability of the merge), `sort` = `merge_sort`.
-Not proved: that the result is an ordered permutation (needs `ord` as a function and its transitivity, which hold only for mutually
-comparable elements)."""
+it is less than the current element of the left half -- direction and stability of the merge; the result is a permutation), `sort` = `merge_sort`.
+Proved as well: the result is a PERMUTATION of the list (multisets).  Not proved: that it is ORDERED (needs `ord` as a function and
+its transitivity, which hold only for mutually comparable elements)."""
 from vgen.gen import A
 from . import common as C
 from . import value_cmp as VC
@@ -79,14 +79,42 @@ def build():
                    'R2: `==` on Ordering (derived PartialEq has no vstd spec) -> trampoline; the compared expression is untouched')]))
     U.extract(F, 'fn merge_sort', inside='mod methods/mod internal', annot=A(
         ret='r', attrs=['#[verifier::exec_allows_no_decreases_clause]'], props=('C04', 'C01'),
-        ensures=[('same_number_of_elements', 'r@.len() == list@.len()')],
+        ensures=[('same_number_of_elements', 'r@.len() == list@.len()'),
+                 ('a_permutation_of_the_list', 'r@.to_multiset() =~= list@.to_multiset()')],
         rewrites=[('list.split_off(list.len() / 2)', '{ let half = list.len() / 2; s_split_off(&mut list, half) }', 'R2m: Vec::split_off -> trampoline (the argument is evaluated first, as in the two-phase borrow of the method call)'),
                   ('merged.extend_from_slice(&left[i..])', 's_extend_from(&mut merged, &left, i)', 'R2m: extend_from_slice of a tail slice -> trampoline (assumed: appends the elements from that index on, in order)'),
                   ('merged.extend_from_slice(&right[j..])', 's_extend_from(&mut merged, &right, j)', 'R2m: extend_from_slice of a tail slice -> trampoline')],
-        after={('stmt', 'let left =', 0): 'let ghost n0 = left@.len() + right@.len();'},
-        before={'merged.push(right[j].clone());': ('the_right_element_goes_first_only_when_it_is_less', 'less_ok(right@[j as int], left@[i as int], true)'),
+        body_begin='let ghost l0 = list@;',
+        after={('stmt', 'let left =', 0): '''let ghost n0 = left@.len() + right@.len();
+proof {
+    let h = (l0.len() / 2) as int;
+    assert(l0 =~= l0.take(h) + l0.skip(h));
+    vstd::seq_lib::lemma_multiset_commutative(l0.take(h), l0.skip(h));
+    assert(l0.to_multiset() =~= left@.to_multiset().add(right@.to_multiset()));
+    assert(left@.take(0) =~= Seq::<CelValue>::empty() && right@.take(0) =~= Seq::<CelValue>::empty());
+    Seq::<CelValue>::empty().to_multiset_ensures();
+}''',
+               ('stmt', 'merged.extend_from_slice(&right[j..])', 0): '''proof {
+    let m0 = left@.take(i as int) + right@.take(j as int);
+    assert(left@ =~= left@.take(i as int) + left@.skip(i as int));
+    assert(right@ =~= right@.take(j as int) + right@.skip(j as int));
+    vstd::seq_lib::lemma_multiset_commutative(left@.take(i as int), left@.skip(i as int));
+    vstd::seq_lib::lemma_multiset_commutative(right@.take(j as int), right@.skip(j as int));
+    vstd::seq_lib::lemma_multiset_commutative(merged_before_tails, left@.skip(i as int));
+    vstd::seq_lib::lemma_multiset_commutative(merged_before_tails + left@.skip(i as int), right@.skip(j as int));
+}'''},
+        before={'merged.extend_from_slice(&left[i..]);': 'let ghost merged_before_tails = merged@;',
+                'merged.push(right[j].clone());': ('the_right_element_goes_first_only_when_it_is_less', 'less_ok(right@[j as int], left@[i as int], true)'),
                 'merged.push(left[i].clone());': ('otherwise_the_left_element_keeps_its_place', 'less_ok(right@[j as int], left@[i as int], false)')},
-        loops={0: dict(invariant=[('merged_so_far', 'i <= left@.len() && j <= right@.len() && merged@.len() == i + j && left@.len() + right@.len() == n0')])}))
+        loops={0: dict(invariant=[('merged_so_far', 'i <= left@.len() && j <= right@.len() && merged@.len() == i + j && left@.len() + right@.len() == n0'),
+                                  ('the_elements_taken_so_far', 'merged@.to_multiset() =~= left@.take(i as int).to_multiset().add(right@.take(j as int).to_multiset())')],
+                       pre='let ghost i0 = i as int; let ghost j0 = j as int; let ghost m0 = merged@;',
+                       post='''proof {
+    m0.to_multiset_ensures();
+    left@.take(i0).to_multiset_ensures();
+    right@.take(j0).to_multiset_ensures();
+    if i as int == i0 + 1 { assert(left@.take(i0 + 1) =~= left@.take(i0).push(left@[i0])); } else { assert(right@.take(j0 + 1) =~= right@.take(j0).push(right@[j0])); }
+}''')}))
     U.raw('}', 'end helper module')
     U.extract(F, 'mod methods', qual_prefix='sort', fns={'sort#0': A(
         ret='r', props=('C04', 'C01'), ensures=[('the_merge_sort_of_the_list', 'r@.len() == this@.len()')],
